@@ -109,7 +109,7 @@ def stmt(s, inc_names, indent=""):
     if k in ("dotset", "skip"):
         return [indent + f"\t. = {expr(s['e'])}"]
     if k == "insert":
-        return [indent + f'\tinsert_file "ins{s["len"]}.bin"']
+        return [indent + f'\tinsert_file "{insert_name(s)}"']
     if k == "repeat":
         out = [indent + f"\t.repeat {s['n']:o} {{"]
         for b in s["body"]:
@@ -121,17 +121,33 @@ def stmt(s, inc_names, indent=""):
     raise MachineryError(f"unknown statement {s}")
 
 
+def insert_name(s):
+    """the operand of insert_file as written: a name of its own ('nm', looked up next to the file the directive stands in) or one per length"""
+    return (s["nm"] + ".bin") if "nm" in s else f"ins{s['len']}.bin"
+
+
+def inc_path(f):
+    """path of an includable file below the scratch root"""
+    return (f["dir"] + "/" if f.get("dir") else "") + f["name"] + ".mac"
+
+
 def insert_bytes(n):
     return bytes((7 * q + n) % 256 for q in range(1, n + 1))
 
 
 def walk(stmts, inc):
-    for s in stmts:
+    for s, _ in walk_dir(stmts, inc, ""):
         yield s
+
+
+def walk_dir(stmts, inc, d):
+    """(statement, directory of the file it stands in) for every statement reached from stmts"""
+    for s in stmts:
+        yield s, d
         if s["k"] == "repeat":
-            yield from walk(s["body"], inc)
-        if s["k"] == "include":
-            yield from walk(inc[s["f"] - 1]["body"], inc)
+            yield from walk_dir(s["body"], inc, d)
+        if s["k"] in ("include", "linkinc"):
+            yield from walk_dir(inc[s["f"] - 1]["body"], inc, inc[s["f"] - 1].get("dir", ""))
 
 
 INC_SPELLINGS = ["{n}.mac", "./{n}.mac", "sub/../{n}.mac"]
@@ -162,24 +178,33 @@ def render(files, inc, base=None, late=None):
             k = counter.get(n, 0)
             counter[n] = k + 1
             return INC_SPELLINGS[k % 3].format(n=n)[:-4]
-    inc_names = Names(inc_names)
+    inc_names = Names([inc_path(f)[:-4] for f in inc])
     for f in files:
-        for s in walk(f, inc):
+        for s, d in walk_dir(f, inc, ""):
             if s["k"] == "insert":
-                fs[f"ins{s['len']}.bin"] = insert_bytes(s["len"])
+                path = (d + "/" if d else "") + insert_name(s)
+                if fs.get(path, insert_bytes(s["len"])) != insert_bytes(s["len"]):
+                    raise MachineryError(f"two different inserted files at {path}")
+                fs[path] = insert_bytes(s["len"])
                 used_fs = True
-            if s["k"] == "include":
+            if s["k"] in ("include", "linkinc"):
                 used_fs = True
     if used_fs:
-        plain = [f["name"] for f in inc]
         for f in inc:
+            # inside included files the plain spelling is used, relative to the directory of the including file
+            plain = [(inc_path(g) if not f.get("dir") else ("../" + inc_path(g) if not g.get("dir") else g["name"] + ".mac"))[:-4] for g in inc]
             lines = []
             for s in f["body"]:
-                lines += stmt(s, plain)           # inside included files the plain spelling is used
-            fs[f["name"] + ".mac"] = "\n".join(lines) + "\n"
+                lines += stmt(s, plain)
+            fs[inc_path(f)] = "\n".join(lines) + "\n"
         fs["sub/.keep"] = ""
     srcs = []
+    if files and len(files[-1]) == 1 and files[-1][0]["k"] == "linkinc" and link_at == "end":
+        link_at = "start"                          # the text of a linked includable file is the file's own: no harness line in it
     for i, f in enumerate(files):
+        if len(f) == 1 and f[0]["k"] == "linkinc":
+            srcs.append((inc_path(inc[f[0]["f"] - 1]), fs[inc_path(inc[f[0]["f"] - 1])]))
+            continue
         lines = []
         if i == 0 and base is not None and link_at == "start":
             lines.append("\t.link %o" % base)
